@@ -183,7 +183,7 @@ pub fn get_property(obj: &JsValue, key: &str) -> Result<JsValue, JsError> {
         .as_object()
         .ok_or_else(|| JsError::type_error("Cannot get property of non-object"))?;
 
-    let prop_key = value::PropertyKey::String(JsString::from(key));
+    let prop_key = value::PropertyKey::from_name(key);
     let value = {
         let borrowed = object.borrow();
         borrowed.get_property(&prop_key)
@@ -275,7 +275,7 @@ pub fn set_property(obj: &JsValue, key: &str, value: JsValue) -> Result<(), JsEr
         .as_object()
         .ok_or_else(|| JsError::type_error("Cannot set property on non-object"))?;
 
-    let prop_key = value::PropertyKey::String(JsString::from(key));
+    let prop_key = value::PropertyKey::from_name(key);
     object.borrow_mut().set_property(prop_key, value);
     Ok(())
 }
@@ -394,7 +394,7 @@ pub fn call_method(
         .ok_or_else(|| JsError::type_error("Cannot call method on non-object"))?;
 
     // Look up the method from the object's properties and prototype chain
-    let prop_key = value::PropertyKey::String(JsString::from(method_name));
+    let prop_key = value::PropertyKey::from_name(method_name);
     let method = {
         let borrowed = object.borrow();
         borrowed.get_property(&prop_key)
